@@ -304,7 +304,13 @@ func (h *hook) ProcessHook(next redis.ProcessHook) redis.ProcessHook {
 		if kind == "set" {
 			kind = "setnx"
 		}
-		switch h.gate(kind) {
+		act := h.gate(kind)
+		// a fault on UNWATCH is not injected: a failed UNWATCH on a healthy connection would leave the
+		// connection watching (in reality a failing connection is discarded, not reused)
+		if kind == "unwatch" && (act == FaultBefore || act == FaultAfter) {
+			act = Run
+		}
+		switch act {
 		case CrashBefore:
 			h.park()
 		case CrashAfter:
